@@ -24,6 +24,7 @@ use scylla::client::session::Session;
 use scylla::client::session_builder::SessionBuilder;
 use scylla::errors::{NextPageError, NextRowError, PagerExecutionError, RequestAttemptError, RequestError};
 use scylla_cql_core::serialize::row::SerializedValues;
+use scylla::policies::retry::DowngradingConsistencyRetryPolicy;
 use scylla::statement::unprepared::Statement;
 use scylla::verif_hooks::connection::{VerifConn, VerifConnOptions};
 use std::cell::RefCell;
@@ -52,11 +53,15 @@ enum Consumer {
     Eager,
     Slow,
     Drop(usize),
+    /// `k` rows, then ONE more poll of `next()` (which may swallow an empty page and stay pending), then drop
+    PollDrop(usize),
 }
 
 struct Case {
     /// `pg`: single-connection pager; `sess`: `Session::execute_iter` against a one-node mock cluster
     session: bool,
+    /// `sessdg`: session pager, idempotent statement, DowngradingConsistencyRetryPolicy
+    downgrading: bool,
     skip: bool,
     consumer: Consumer,
     pages: Vec<PageSpec>,
@@ -78,21 +83,27 @@ fn fmt_sess_case(skip: bool, consumer: Consumer, pages: &[PageSpec]) -> String {
     fmt_case(skip, consumer, pages).replacen("pg ", "sess ", 1)
 }
 
+fn fmt_dg_case(skip: bool, consumer: Consumer, pages: &[PageSpec]) -> String {
+    fmt_case(skip, consumer, pages).replacen("pg ", "sessdg ", 1)
+}
+
 fn fmt_case(skip: bool, consumer: Consumer, pages: &[PageSpec]) -> String {
     let c = match consumer {
         Consumer::Eager => "eager".to_owned(),
         Consumer::Slow => "slow".to_owned(),
         Consumer::Drop(k) => format!("drop{}", k),
+        Consumer::PollDrop(k) => format!("pdrop{}", k),
     };
     format!("pg {} {} {}", skip as u8, c, pages.iter().map(fmt_page).collect::<Vec<_>>().join(" "))
 }
 
 fn parse_case(line: &str) -> Option<Case> {
     let w: Vec<&str> = line.split_whitespace().collect();
-    if w.len() < 4 || (w[0] != "pg" && w[0] != "sess") {
+    if w.len() < 4 || (w[0] != "pg" && w[0] != "sess" && w[0] != "sessdg") {
         return None;
     }
-    let session = w[0] == "sess";
+    let session = w[0] != "pg";
+    let downgrading = w[0] == "sessdg";
     let skip = match w[1] {
         "0" => false,
         "1" => true,
@@ -101,6 +112,7 @@ fn parse_case(line: &str) -> Option<Case> {
     let consumer = match w[2] {
         "eager" => Consumer::Eager,
         "slow" => Consumer::Slow,
+        s if s.starts_with("pdrop") => Consumer::PollDrop(s[5..].parse().ok()?),
         s if s.starts_with("drop") => Consumer::Drop(s[4..].parse().ok()?),
         _ => return None,
     };
@@ -115,7 +127,10 @@ fn parse_case(line: &str) -> Option<Case> {
         let faults: Vec<char> = if parts[2] == "-" { vec![] } else { parts[2].chars().collect() };
         pages.push(PageSpec { rows, state, faults });
     }
-    Some(Case { session, skip, consumer, pages })
+    if downgrading && pages.iter().any(|p| p.faults.iter().any(|c| !"uWod".contains(*c))) {
+        return None; // only these faults are modelled for the downgrading policy
+    }
+    Some(Case { session, downgrading, skip, consumer, pages })
 }
 
 // ---------------------------------------------------------------------------------------------
@@ -267,6 +282,16 @@ fn handler(script: Arc<Mutex<Script>>, min_conn: Arc<AtomicUsize>) -> Handler {
                         w_int(&mut extra, 1);
                         extra.push(0);
                         actions.push(Action::Respond(RESP_ERROR, body_error(0x1200, "read timeout", &extra)));
+                        return actions;
+                    }
+                    Some('W') => {
+                        // WriteTimeout <cl><received><blockfor><writeType>: SIMPLE write, one replica answered
+                        let mut extra = Vec::new();
+                        w_short(&mut extra, 0x0001);
+                        w_int(&mut extra, 1);
+                        w_int(&mut extra, 2);
+                        w_string(&mut extra, "SIMPLE");
+                        actions.push(Action::Respond(RESP_ERROR, body_error(0x1100, "write timeout", &extra)));
                         return actions;
                     }
                     Some('s') => {
@@ -455,6 +480,10 @@ async fn run_case(case: &Case, ctx: &mut Ctx) -> String {
     let dirty = case.pages.iter().any(|p| p.faults.contains(&'T') || p.faults.contains(&'c'));
     let conn = env.conn.as_ref().unwrap();
     prepared.set_use_cached_result_metadata(case.skip);
+    if case.downgrading {
+        prepared.set_is_idempotent(true);
+        prepared.set_retry_policy(Some(Arc::new(DowngradingConsistencyRetryPolicy::new())));
+    }
     prepared.set_request_timeout(if has_timeout_fault { Some(REQUEST_TIMEOUT) } else { None });
 
     let script = Arc::clone(&env.script);
@@ -490,12 +519,40 @@ async fn run_case(case: &Case, ctx: &mut Ctx) -> String {
             }
         };
         let limit = match consumer {
-            Consumer::Drop(k) => Some(k),
+            Consumer::Drop(k) | Consumer::PollDrop(k) => Some(k),
             _ => None,
         };
         loop {
             if let Some(k) = limit {
                 if obs.delivered.len() >= k {
+                    if let Consumer::PollDrop(_) = consumer {
+                        // let the producer get ahead a little (how far is the scheduler's business), then
+                        // poll `next()` exactly once and drop it whatever it says
+                        for _ in 0..(k % 4) {
+                            tokio::task::yield_now().await;
+                        }
+                        let polled = {
+                            let mut fut = stream.next();
+                            futures::poll!(&mut fut)
+                        };
+                        match polled {
+                            std::task::Poll::Pending => {}
+                            std::task::Poll::Ready(Some(Ok((v,)))) => obs.delivered.push(v),
+                            std::task::Poll::Ready(None) => {
+                                obs.fin = "end".to_owned();
+                                return obs;
+                            }
+                            std::task::Poll::Ready(Some(Err(e))) => {
+                                obs.fin = format!("err:{}", error_label(&e));
+                                match stream.next().await {
+                                    None => obs.fin.push_str("+end"),
+                                    Some(Ok(_)) => obs.fin.push_str("+row"),
+                                    Some(Err(e2)) => obs.fin.push_str(&format!("+err:{}", error_label(&e2))),
+                                }
+                                return obs;
+                            }
+                        }
+                    }
                     drop(stream);
                     obs.fin = "dropped".to_owned();
                     return obs;
@@ -578,6 +635,12 @@ async fn run_case(case: &Case, ctx: &mut Ctx) -> String {
                 ctx.fail(format!("dropped after {} rows: delivered {:?} is not the first {} rows the node sent", k, obs.delivered, k));
             }
         }
+        Consumer::PollDrop(k) if obs.fin == "dropped" => {
+            let m = obs.delivered.len();
+            if (m != k && m != k + 1) || obs.delivered[..] != sent_flat[..m.min(sent_flat.len())] {
+                ctx.fail(format!("dropped after {} rows and one more poll: delivered {:?} is not the first {} or {} rows the node sent", k, obs.delivered, k, k + 1));
+            }
+        }
         _ => {
             if obs.delivered != sent_flat {
                 ctx.fail(format!(
@@ -610,12 +673,25 @@ async fn run_case(case: &Case, ctx: &mut Ctx) -> String {
     // never retries (only the transparent re-prepare after UNPREPARED, once per attempt); the session
     // pager's default retry policy retries a digest-only ReadTimeout (`R`) once per page on the same node
     let session = case.session;
+    let downgrading = case.downgrading;
+    // downgrading policy, idempotent statement: a WriteTimeout(SIMPLE, received > 0) is answered with
+    // IgnoreWriteError - "treat the request as done": the documented outcome is a stream that ends
+    // without error after the rows of the earlier pages (pager.rs 220-226, 278-290)
+    let ignored_page = if downgrading {
+        case.pages.iter().position(|p| {
+            let f: Vec<char> = p.faults.iter().copied().filter(|c| *c != 'd').collect();
+            matches!(f.as_slice(), ['W', ..] | ['u', 'W', ..])
+        })
+    } else {
+        None
+    };
     let fatal_page = case.pages.iter().position(|p| {
         let mut unprepared = false;
         let mut read_retry = false;
         for c in p.faults.iter() {
             match c {
                 'd' => {}
+                'W' if downgrading => return false,
                 'u' => {
                     if unprepared {
                         return true;
@@ -637,18 +713,32 @@ async fn run_case(case: &Case, ctx: &mut Ctx) -> String {
         (0..n as i32).collect()
     };
     let fatal_page = fatal_page.filter(|k| *k <= last_page);
+    let ignored_page = ignored_page.filter(|k| *k <= last_page && fatal_page.is_none_or(|f| *k < f));
+    let fatal_page = fatal_page.filter(|f| ignored_page.is_none_or(|k| *f < k));
+    if let (Some(k), true) = (ignored_page, obs.fin != "dropped") {
+        if obs.fin != "end" || obs.delivered != rows_before(k) {
+            ctx.fail(format!(
+                "IgnoreWriteError on page {}: expected the {} rows of the earlier pages then end, got {} rows, fin={}",
+                k,
+                rows_before(k).len(),
+                obs.delivered.len(),
+                obs.fin
+            ));
+        }
+    }
     // a non-Rows RESULT as the FIRST response of a session pager is, by design (pager.rs 436-454, issue
     // #631: non-SELECT statements run through the iterator API), an empty stream and not an error
     let void_first = session && {
         let f: Vec<char> = case.pages[0].faults.iter().copied().filter(|c| *c != 'd').collect();
         matches!(f.as_slice(), ['v', ..] | ['u', 'v', ..] | ['R', 'v', ..] | ['u', 'R', 'v', ..] | ['R', 'u', 'v', ..])
     };
-    if void_first && obs.fin != "dropped" {
+    if void_first && ignored_page.is_none() && obs.fin != "dropped" {
         if obs.fin != "end" || !obs.delivered.is_empty() {
             ctx.fail(format!("session pager, non-Rows first response: expected an empty stream, got {} rows, fin={}", obs.delivered.len(), obs.fin));
         }
     }
     let fatal_page = if void_first { None } else { fatal_page };
+    let void_first = void_first || ignored_page.is_some();
     if obs.fin != "dropped" && !void_first {
         match fatal_page {
             None => {
@@ -682,8 +772,11 @@ async fn run_case(case: &Case, ctx: &mut Ctx) -> String {
                 }
             }
         }
-    } else if let Consumer::Drop(k) = case.consumer {
+    } else if let Consumer::Drop(_) | Consumer::PollDrop(_) = case.consumer {
         // 4. early drop: the producer is at most two pages ahead and fetches at most one more
+        //    (one page more if the extra poll of `pdrop` swallowed an empty page)
+        let k = obs.delivered.len();
+        let slack = if let Consumer::PollDrop(_) = case.consumer { 4 } else { 3 };
         let mut acc = 0usize;
         let mut cur_page = 0usize;
         for (i, p) in case.pages.iter().enumerate() {
@@ -693,7 +786,7 @@ async fn run_case(case: &Case, ctx: &mut Ctx) -> String {
                 break;
             }
         }
-        if s.sent.len() > cur_page + 3 {
+        if s.sent.len() > cur_page + slack {
             ctx.fail(format!(
                 "dropped while consuming page {}: the node served {} pages (more than 2 prefetched + 1 in flight)",
                 cur_page,
@@ -804,6 +897,69 @@ fn compositions(max_len: usize, max_size: usize, max_rows: usize) -> Vec<Vec<usi
 pub fn generate(rng: &mut Rng, tier: Tier, emit: &mut dyn FnMut(String)) {
     gen_family(rng, tier == Tier::Thorough, false, emit);
     gen_family(rng, tier == Tier::Thorough, true, emit);
+    gen_downgrading(rng, tier == Tier::Thorough, emit);
+}
+
+/// Script shapes beyond "last page has no paging state": a page WITHOUT paging state in the middle (the
+/// pages after it must never be asked for), and a script whose every page has a paging state (the mock
+/// then answers one more request with an empty last page).
+fn reshape(rng: &mut Rng, pages: &mut [PageSpec], sts: &[Vec<u8>]) {
+    let n = pages.len();
+    match rng.below(2) {
+        0 if n >= 2 => {
+            let j = rng.below(n as u64 - 1) as usize;
+            pages[j].state = None;
+        }
+        _ => pages[n - 1].state = Some(sts[n - 1].clone()),
+    }
+}
+
+/// The IgnoreWriteError branches of the session pager (pager.rs 220-226, 278-290): idempotent
+/// statement, DowngradingConsistencyRetryPolicy, WriteTimeout(SIMPLE, received 1) on page k.
+fn gen_downgrading(rng: &mut Rng, thorough: bool, emit: &mut dyn FnMut(String)) {
+    let mut flip = false;
+    let (len, size, rows) = if thorough { (4, 2, 5) } else { (3, 2, 4) };
+    for sizes in compositions(len, size, rows) {
+        let n = sizes.len();
+        let total: usize = sizes.iter().sum();
+        for k in 0..n {
+            for f in ["W", "uW", "dW", "o", "u"] {
+                let mut faults = vec![vec![]; n];
+                faults[k] = f.chars().collect();
+                let sts = states(rng, n, false);
+                flip = !flip;
+                let consumer = match (k + total) % 5 {
+                    0 => Consumer::Slow,
+                    1 => Consumer::Drop(total / 2),
+                    _ => Consumer::Eager,
+                };
+                emit(fmt_dg_case(flip, consumer, &build(&sizes, &sts, &faults)));
+            }
+        }
+    }
+    for _ in 0..(if thorough { 8000 } else { 800 }) {
+        let n = 1 + rng.below(12) as usize;
+        let sizes: Vec<usize> = (0..n).map(|_| if rng.chance(1, 5) { 0 } else { rng.below(30) as usize }).collect();
+        let sts = states(rng, n, false);
+        let mut faults = vec![vec![]; n];
+        for f in faults.iter_mut() {
+            if rng.chance(1, 6) {
+                *f = vec![*rng.pick(&['u', 'd'])];
+            }
+        }
+        if rng.chance(4, 5) {
+            let k = rng.below(n as u64) as usize;
+            faults[k].push(if rng.chance(1, 6) { 'o' } else { 'W' });
+        }
+        flip = !flip;
+        let total: usize = sizes.iter().sum();
+        let consumer = match rng.below(5) {
+            0 => Consumer::Slow,
+            1 => Consumer::Drop(rng.below(total as u64 + 1) as usize),
+            _ => Consumer::Eager,
+        };
+        emit(fmt_dg_case(flip, consumer, &build(&sizes, &sts, &faults)));
+    }
 }
 
 fn gen_family(rng: &mut Rng, thorough: bool, sess: bool, emit: &mut dyn FnMut(String)) {
@@ -863,6 +1019,31 @@ fn gen_family(rng: &mut Rng, thorough: bool, sess: bool, emit: &mut dyn FnMut(St
         for k in 0..=total {
             let sts = states(rng, n, false);
             emit(fmt(skip(), Consumer::Drop(k), &build(&sizes, &sts, &[])));
+            // one more poll before the drop (pending next(), possibly after an empty page)
+            emit(fmt(skip(), Consumer::PollDrop(k), &build(&sizes, &sts, &[])));
+            // the same drop points with a retried request / a failing request in flight
+            let mut faults = vec![vec![]; n];
+            faults[k % n] = vec![if sess { 'R' } else { 'u' }];
+            faults[n - 1].push('o');
+            emit(fmt(skip(), if k % 2 == 0 { Consumer::Drop(k) } else { Consumer::PollDrop(k) }, &build(&sizes, &sts, &faults)));
+            let mut faults = vec![vec![]; n];
+            faults[(k + 1) % n] = vec!['u'];
+            emit(fmt(skip(), if k % 2 == 1 { Consumer::Drop(k) } else { Consumer::PollDrop(k) }, &build(&sizes, &sts, &faults)));
+        }
+        // pages after a page without paging state; a script that never says "no more pages"
+        if n >= 2 {
+            for j in 0..n - 1 {
+                let sts = states(rng, n, false);
+                let mut pages = build(&sizes, &sts, &[]);
+                pages[j].state = None;
+                emit(fmt(skip(), Consumer::Eager, &pages));
+            }
+        }
+        {
+            let sts = states(rng, n, false);
+            let mut pages = build(&sizes, &sts, &[]);
+            pages[n - 1].state = Some(sts[n - 1].clone());
+            emit(fmt(skip(), if total % 2 == 0 { Consumer::Eager } else { Consumer::Drop(total) }, &pages));
         }
     }
     // 3. random: 0..200 rows, random splits, empty pages, long states, repeated states, faults, consumers
@@ -949,14 +1130,21 @@ fn gen_family(rng: &mut Rng, thorough: bool, sess: bool, emit: &mut dyn FnMut(St
         }
         let consumer = match rng.below(6) {
             0 | 1 => Consumer::Slow,
-            2 => Consumer::Drop(match rng.below(3) {
-                0 => rng.below(3) as usize,
-                1 => total,
-                _ => rng.below(total as u64 + 2) as usize,
-            }),
+            2 => {
+                let k = match rng.below(3) {
+                    0 => rng.below(3) as usize,
+                    1 => total,
+                    _ => rng.below(total as u64 + 2) as usize,
+                };
+                if rng.chance(1, 3) { Consumer::PollDrop(k) } else { Consumer::Drop(k) }
+            }
             _ => Consumer::Eager,
         };
-        emit(fmt(skip(), consumer, &build(&sizes, &sts, &faults)));
+        let mut pages = build(&sizes, &sts, &faults);
+        if rng.chance(1, 10) {
+            reshape(rng, &mut pages, &sts);
+        }
+        emit(fmt(skip(), consumer, &pages));
     }
     // 4. client-side request timeout on page k (real time: few cases)
     let n_timeout = match (thorough, sess) {
